@@ -328,6 +328,8 @@ def run(ctx):
         _optimizer_after_backend(ctx, r1, f)
         # ---- R2
         _file_vs_stdout(ctx, r2, f)
+        for h_ in repo.helpers_of(f, depth=1):  # the two arms may live in a helper several commands share: judged there, once per command using it
+            _file_vs_stdout(ctx, r2, h_, via=f)
 
     # ---- option type converters: what click's own conversion (checks, path resolution) produced is what is returned
     um = repo.module("src/pyhf/utils.py")
@@ -549,7 +551,7 @@ def _optimizer_after_backend(ctx, rid, f):
             ctx.holds(rid, site, "no backend-only set_backend call can follow the optimizer installation")
 
 
-def _file_vs_stdout(ctx, rid, f):
+def _file_vs_stdout(ctx, rid, f, via=None):
     dumps = [c for c in A.calls_in(f.node) if A.call_name(c) == "json.dumps"]
     dump = [c for c in A.calls_in(f.node) if A.call_name(c) == "json.dump"]
     if not dumps and not dump:
@@ -572,7 +574,7 @@ def _file_vs_stdout(ctx, rid, f):
             elif oa != ob:
                 ctx.violated(rid, f, b, f"file and stdout arms use different JSON encoder options: stdout {oa}, file {ob}", expected=str(oa), found=str(ob), node=b)
             else:
-                ctx.holds(rid, f"{f.relpath}::{f.qualname}: {xa}", f"same object, options {oa}")
+                ctx.holds(rid, f"{f.relpath}::{f.qualname}{' (for ' + via.qualname + ')' if via is not None else ''}: {xa}", f"same object, options {oa}")
 
 
 def _optconf_parse(ctx, rid, repo):
